@@ -48,6 +48,23 @@ impl Rng {
     }
 }
 
+/// mirror of the choices made by the run in progress, readable from the panic hook and
+/// from the watchdog thread (which cannot reach the tape owned by the running thread)
+pub static MIRROR: std::sync::Mutex<Vec<u32>> = std::sync::Mutex::new(Vec::new());
+
+pub fn mirror_snapshot() -> Vec<u32> {
+    match MIRROR.try_lock() {
+        Ok(g) => g.clone(),
+        Err(_) => Vec::new(),
+    }
+}
+
+fn mirror_reset() {
+    if let Ok(mut g) = MIRROR.lock() {
+        g.clear();
+    }
+}
+
 enum Mode {
     Record(Rng),
     Replay { pos: usize },
@@ -67,9 +84,11 @@ pub struct Tape {
 
 impl Tape {
     pub fn record(seed: u64, run: u64) -> Self {
+        mirror_reset();
         Tape { mode: Mode::Record(Rng::new(seed, run)), vals: Vec::new(), marks: Vec::new(), used: 0, dump: None }
     }
     pub fn replay(vals: Vec<u32>) -> Self {
+        mirror_reset();
         Tape { mode: Mode::Replay { pos: 0 }, vals, marks: Vec::new(), used: 0, dump: None }
     }
     pub fn set_dump(&mut self, f: std::fs::File) {
@@ -104,6 +123,9 @@ impl Tape {
                 v
             }
         };
+        if let Ok(mut g) = MIRROR.try_lock() {
+            g.push(v);
+        }
         if let Some(f) = &mut self.dump {
             use std::io::Write;
             let _ = writeln!(f, "{v}");
